@@ -1,4 +1,5 @@
 import OFCore.Param
+import OFCore.Lemmas.Calendar
 /-!
 # Helper lemmas for the dated-parameter model (C06)
 
@@ -256,30 +257,312 @@ theorem reopen_cons_ne (e : Entry V) (k rest : List (Entry V)) (s : Int) (hne : 
   · rw [if_neg h, if_neg (fun c => h ((lastDate_cons_ne e k s hne).mp c))]
 
 /-- refinement: the transcription of the code's five phases equals the one-pass recursion
-    whenever the history is sorted (any `a`, any `b`, reversed ranges included) -/
-theorem update_eq_upd {bnd : Int} (l : List (Entry V)) (a b : Int) (v : Option V)
-    (h : SortedBelow bnd l) : update l a (some b) v = upd l a (b + 1) v := by
-  simp only [update]
+    whenever the history is sorted (any `a`, any `s`, reversed ranges included) -/
+theorem updateSpan_eq_upd {bnd : Int} (l : List (Entry V)) (a s : Int) (v : Option V)
+    (h : SortedBelow bnd l) : updateSpan l a s v = upd l a s v := by
+  simp only [updateSpan]
   induction l generalizing bnd with
   | nil => simp [keepFrom, skipFrom, reopen, lastDate, upd]
   | cons e r ih =>
     simp only [upd]
-    by_cases h1 : b + 1 < e.date
-    · have h1' : b + 1 ≤ e.date := by omega
+    by_cases h1 : s < e.date
+    · have h1' : s ≤ e.date := by omega
       rw [if_pos h1]
       simp only [keepFrom, skipFrom, if_pos h1']
       rw [reopen_cons_ne e _ _ _ (by omega), ← ih h.2]
       simp
     · rw [if_neg h1]
-      by_cases h2 : b + 1 = e.date
+      by_cases h2 : s = e.date
       · rw [if_pos h2]
-        have hr : SortedBelow (b + 1) r := by rw [h2]; exact h.2
-        simp only [keepFrom, skipFrom, if_pos (show b + 1 ≤ e.date by omega)]
+        have hr : SortedBelow s r := by rw [h2]; exact h.2
+        simp only [keepFrom, skipFrom, if_pos (show s ≤ e.date by omega)]
         rw [keepFrom_of_below hr, skipFrom_of_below hr]
         simp [reopen, lastDate, h2]
       · rw [if_neg h2]
-        simp only [keepFrom, skipFrom, if_neg (show ¬ b + 1 ≤ e.date by omega)]
+        simp only [keepFrom, skipFrom, if_neg (show ¬ s ≤ e.date by omega)]
         simp [reopen, lastDate]
+
+theorem update_eq_upd {bnd : Int} (l : List (Entry V)) (a b : Int) (v : Option V)
+    (h : SortedBelow bnd l) : update l a (some b) v = upd l a (b + 1) v :=
+  updateSpan_eq_upd l a (b + 1) v h
+
+/-! ## Spelled keys: the ticks order like the texts -/
+
+/-- when does a key take effect: on its first day -/
+theorem fine_le_iff (o q : Int) (sp : Spell) : fine o sp ≤ 3 * q ↔ o ≤ q := by
+  cases sp <;> simp only [fine] <;> omega
+
+theorem fine_lt_iff (o o' : Int) (sp sp' : Spell) :
+    fine o sp < fine o' sp' ↔ o < o' ∨ (o = o' ∧ fine 0 sp < fine 0 sp') := by
+  cases sp <;> cases sp' <;> simp only [fine] <;> omega
+
+theorem fine_inj (o o' : Int) (sp sp' : Spell) (h : fine o sp = fine o' sp') : o = o' ∧ sp = sp' := by
+  cases sp <;> cases sp' <;> simp only [fine] at h <;> first | exact ⟨by omega, rfl⟩ | omega
+
+/-- a spelled key as the triple the TEXT order compares: zero-padded `YYYY[-MM[-DD]]`, a missing component
+    counting as 0 (a text that is a proper prefix of another one is smaller) -/
+structure SKey where
+  y : Int
+  m : Int
+  d : Int
+
+def SKey.WF (k : SKey) : Prop :=
+  1 ≤ k.y ∧ ((k.m = 0 ∧ k.d = 0) ∨ (1 ≤ k.m ∧ k.m ≤ 12 ∧ (k.d = 0 ∨ (1 ≤ k.d ∧ k.d ≤ dim k.y k.m))))
+
+def SKey.spell (k : SKey) : Spell := if k.m = 0 then .year else if k.d = 0 then .month else .day
+
+/-- the first day the key denotes -/
+def SKey.first (k : SKey) : Date := ⟨k.y, if k.m = 0 then 1 else k.m, if k.d = 0 then 1 else k.d⟩
+
+def SKey.tick (k : SKey) : Int := fine (ord k.first) k.spell
+
+/-- the order of the texts -/
+def SKey.lt (a b : SKey) : Prop := a.y < b.y ∨ (a.y = b.y ∧ (a.m < b.m ∨ (a.m = b.m ∧ a.d < b.d)))
+
+instance (k : SKey) : Decidable k.WF := by unfold SKey.WF; infer_instance
+instance (a b : SKey) : Decidable (a.lt b) := by unfold SKey.lt; infer_instance
+
+theorem dim_pos (y m : Int) : 28 ≤ dim y m := by
+  unfold dim; split <;> (try split) <;> omega
+
+theorem SKey.first_valid (k : SKey) (h : k.WF) : k.first.Valid := by
+  obtain ⟨hy, hmd⟩ := h
+  have := dim_pos k.y k.m
+  have h31 : dim k.y 1 = 31 := by simp [dim]
+  rcases hmd with ⟨hm, hd⟩ | ⟨hm1, hm2, hd | ⟨hd1, hd2⟩⟩
+  · simp only [SKey.first, Date.Valid, hm, hd, if_true, h31]; omega
+  · simp only [SKey.first, Date.Valid, hd, if_true, if_neg (show ¬ k.m = 0 by omega)]; omega
+  · simp only [SKey.first, Date.Valid, if_neg (show ¬ k.m = 0 by omega), if_neg (show ¬ k.d = 0 by omega)]; omega
+
+/-- The ticks of the model order like the key texts of the code (`values_list` is sorted by text, and
+    `update` / `_get_at_instant` compare texts): `"2014-12-31" < "2015" < "2015-01" < "2015-01-01"`. -/
+theorem fine_lt_of_lex (a b : SKey) (ha : a.WF) (hb : b.WF) (h : a.lt b) : a.tick < b.tick := by
+  have va := a.first_valid ha
+  have vb := b.first_valid hb
+  -- either the first days are in lexicographic order, or they are equal and the spelling of `a` is shorter
+  have key : (a.first.y < b.first.y ∨ (a.first.y = b.first.y ∧ (a.first.m < b.first.m ∨
+        (a.first.m = b.first.m ∧ a.first.d < b.first.d)))) ∨
+      (a.first = b.first ∧ fine 0 a.spell < fine 0 b.spell) := by
+    obtain ⟨_, hamd⟩ := ha
+    obtain ⟨_, hbmd⟩ := hb
+    unfold SKey.lt at h
+    simp only [SKey.first, SKey.spell]
+    by_cases am : a.m = 0 <;> by_cases ad : a.d = 0 <;> by_cases bm : b.m = 0 <;> by_cases bd : b.d = 0 <;>
+      simp only [am, ad, bm, bd, if_true, if_false, fine, Date.mk.injEq] <;>
+      first | omega | (simp only [and_true, and_false, or_false, Int.lt_irrefl] <;> omega)
+  rcases key with hlex | ⟨heq, hsp⟩
+  · have := ord_lt_of_lex a.first b.first va vb hlex
+    unfold SKey.tick
+    rw [fine_lt_iff]; exact Or.inl this
+  · unfold SKey.tick
+    rw [fine_lt_iff, heq]; exact Or.inr ⟨rfl, hsp⟩
+
+/-! ## `update` on a history in ticks -/
+
+theorem pget_updateFine (l : List (Entry V)) (hl : Sorted l) (a b : Int) (v : Option V) (d : Int) :
+    pget (updateFine l a (some b) v) (3 * d) = if a ≤ d ∧ d ≤ b then v else pget l (3 * d) := by
+  have h0 := sortedBelow_of_sorted hl
+  show pget (updateSpan l (3 * a) (3 * (b + 1)) v) (3 * d) = _
+  rw [updateSpan_eq_upd l _ _ v h0, pget_upd l _ _ v h0]
+  by_cases h : a ≤ d ∧ d ≤ b
+  · rw [if_pos h, if_pos (by omega)]
+  · rw [if_neg h, if_neg (by omega)]
+
+theorem sorted_updateFine (l : List (Entry V)) (hl : Sorted l) (a b : Int) (hab : a ≤ b) (v : Option V) :
+    Sorted (updateFine l a (some b) v) := by
+  have h0 := sortedBelow_of_sorted hl
+  have h1 : SortedBelow (max (bound l) (3 * (b + 1) + 1)) l := sortedBelow_mono h0 (by omega)
+  show Sorted (updateSpan l (3 * a) (3 * (b + 1)) v)
+  rw [updateSpan_eq_upd l _ _ v h1]
+  exact sorted_of_sortedBelow (sorted_upd l _ _ v (by omega) h1 (by omega))
+
+theorem updateFine_open (l : List (Entry V)) (hl : Sorted l) (a : Int) (v : Option V) :
+    Sorted (updateFine l a none v) ∧
+    ∀ d, pget (updateFine l a none v) (3 * d) = if a ≤ d then v else pget l (3 * d) := by
+  have h0 := sortedBelow_of_sorted hl
+  constructor
+  · show Sorted (⟨3 * a, v⟩ :: skipFrom l (3 * a))
+    rw [sorted_cons_iff]
+    exact sorted_skipFrom l _ h0
+  · intro d
+    show pget (⟨3 * a, v⟩ :: skipFrom l (3 * a)) (3 * d) = _
+    simp only [pget]
+    by_cases h : a ≤ d
+    · rw [if_pos (by omega), if_pos h]
+    · rw [if_neg (by omega), if_neg h]
+      exact pget_skipFrom l _ _ h0 (by omega)
+
+/-! ## Construction from YAML-like data -/
+
+/-- every key is an instant TEXT -/
+def AllDates (kvs : List (YKey × Y)) : Prop := ∀ p ∈ kvs, ∃ o sp t, p.1 = YKey.date o sp t
+
+/-- the tick of a date key -/
+def keyTick : YKey → Int
+  | .date o sp _ => fine o sp
+  | .name _ => 0
+  | .int _ => 0
+
+theorem allDates_cons (p : YKey × Y) (r : List (YKey × Y)) :
+    AllDates (p :: r) ↔ (∃ o sp t, p.1 = YKey.date o sp t) ∧ AllDates r := by
+  unfold AllDates
+  simp only [List.mem_cons, forall_eq_or_imp]
+
+theorem lookupName_none_of_allDates (kvs : List (YKey × Y)) (h : AllDates kvs) (s : String) :
+    lookupName kvs s = none := by
+  induction kvs with
+  | nil => rfl
+  | cons p r ih =>
+    obtain ⟨k, y⟩ := p
+    obtain ⟨⟨o, sp, t, hk⟩, hr⟩ := (allDates_cons _ _).mp h
+    simp only at hk
+    subst hk
+    simp only [lookupName, YKey.isName, Bool.false_eq_true, if_false]
+    exact ih hr
+
+theorem all_isInstant_of_allDates (kvs : List (YKey × Y)) (h : AllDates kvs) :
+    kvs.all (fun p => p.1.isInstant) = true := by
+  rw [List.all_eq_true]
+  intro p hp
+  obtain ⟨o, sp, t, hk⟩ := h p hp
+  rw [hk]; rfl
+
+/-- `paramItems` succeeds exactly on mappings whose keys are all instant texts and whose values are all
+    readable (`itemOf`); the items are the ticks of the keys with what the values denote, in order -/
+theorem paramItems_spec (kvs : List (YKey × Y)) (its : List (Int × Item String)) (h : paramItems kvs = .ok its) :
+    AllDates kvs ∧ its.map (·.1) = kvs.map (fun p => keyTick p.1) ∧
+    ∀ x, x ∈ its ↔ ∃ o sp t y i, (YKey.date o sp t, y) ∈ kvs ∧ itemOf y = .ok i ∧ x = (fine o sp, i) := by
+  induction kvs generalizing its with
+  | nil =>
+    simp only [paramItems] at h
+    cases h
+    exact ⟨fun p hp => (by cases hp), rfl, fun x => (by simp)⟩
+  | cons p r ih =>
+    obtain ⟨k, y⟩ := p
+    cases k with
+    | name s => simp only [paramItems] at h; cases h
+    | int i => simp only [paramItems] at h; cases h
+    | date o sp t =>
+      simp only [paramItems] at h
+      cases h1 : itemOf y with
+      | error e => rw [h1] at h; cases h
+      | ok it =>
+        cases h2 : paramItems r with
+        | error e => rw [h1, h2] at h; cases h
+        | ok its' =>
+          rw [h1, h2] at h
+          cases h
+          obtain ⟨a1, a2, a3⟩ := ih its' h2
+          refine ⟨(allDates_cons _ _).mpr ⟨⟨o, sp, t, rfl⟩, a1⟩, by simp [keyTick, a2], ?_⟩
+          intro x
+          simp only [List.mem_cons]
+          rw [a3 x]
+          constructor
+          · rintro (rfl | ⟨o', sp', t', y', i', hm, hi, rfl⟩)
+            · exact ⟨o, sp, t, y, it, Or.inl rfl, h1, rfl⟩
+            · exact ⟨o', sp', t', y', i', Or.inr hm, hi, rfl⟩
+          · rintro ⟨o', sp', t', y', i', hm | hm, hi, rfl⟩
+            · left
+              simp only [Prod.mk.injEq, YKey.date.injEq] at hm
+              obtain ⟨⟨rfl, rfl, rfl⟩, rfl⟩ := hm
+              rw [h1] at hi; cases hi; rfl
+            · exact Or.inr ⟨o', sp', t', y', i', hm, hi, rfl⟩
+
+/-- the simplified declaration `{instant: value, …}` builds the parameter whose values list is `ofData` of
+    the items -/
+theorem parseChild_dates (rat : String → Option Rat) (kvs : List (YKey × Y)) (h : AllDates kvs)
+    (its : List (Int × Item String)) (hi : paramItems kvs = .ok its) :
+    parseChild rat (.map kvs) = .ok (.param (ofData its)) := by
+  have hv : lookupName kvs "values" = none := lookupName_none_of_allDates kvs h _
+  have hb : lookupName kvs "brackets" = none := lookupName_none_of_allDates kvs h _
+  simp only [parseChild, hasName, hv, hb, Option.isSome_none, Bool.false_eq_true, if_false,
+    all_isInstant_of_allDates kvs h, if_true, buildParam, paramValues, hi]
+
+/-- the declaration with `values:` (and description, metadata, …) builds the same parameter from the
+    mapping under `values` -/
+theorem parseChild_values (rat : String → Option Rat) (kvs vkvs : List (YKey × Y)) (x : YKey × Y) (hne : vkvs = x :: vkvs.tail)
+    (hv : lookupName kvs "values" = some (.map vkvs))
+    (hk : keysWithin kvs (commonKeys ++ ["values"]) = true) (hm : metaOk kvs = true)
+    (its : List (Int × Item String)) (hi : paramItems vkvs = .ok its) :
+    parseChild rat (.map kvs) = .ok (.param (ofData its)) := by
+  have ht : (Y.map vkvs).truthy = true := by rw [hne]; rfl
+  simp only [parseChild, hasName, hv, Option.isSome_some, if_true, buildParam, paramValues, ht, hk, hm,
+    Bool.not_true, Bool.false_eq_true, if_false, hi]
+
+/-- the loop of `ParameterNode.__init__`: the children built are those of the non-reserved keys, in order,
+    each named by the text of its key and parsed from its data; names end up distinct -/
+theorem nodeKids_spec (rat : String → Option Rat) (kvs : List (YKey × Y)) (acc cs : List (String × PNode String))
+    (h : nodeKids rat kvs acc = .ok cs) :
+    ∃ new, cs = acc ++ new ∧
+      new.map (·.1) = (kvs.filter (fun p => !p.1.within commonKeys)).map (·.1.text) ∧
+      (∀ k c, (k, c) ∈ new → ∃ p ∈ kvs, p.1.within commonKeys = false ∧ p.1.text = k ∧ parseChild rat p.2 = .ok c) ∧
+      ((acc.map (·.1)).Nodup → (cs.map (·.1)).Nodup) := by
+  induction kvs generalizing acc with
+  | nil =>
+    simp only [nodeKids] at h
+    cases h
+    exact ⟨[], (by simp), rfl, fun k c hm => (by cases hm), fun hn => hn⟩
+  | cons p r ih =>
+    obtain ⟨k, y⟩ := p
+    simp only [nodeKids] at h
+    by_cases hw : k.within commonKeys = true
+    · rw [if_pos hw] at h
+      obtain ⟨new, h1, h2, h3, h4⟩ := ih acc h
+      refine ⟨new, h1, ?_, ?_, h4⟩
+      · rw [h2, List.filter_cons]
+        simp [hw]
+      · intro k' c hm
+        obtain ⟨p, hp, hq⟩ := h3 k' c hm
+        exact ⟨p, List.mem_cons_of_mem _ hp, hq⟩
+    · rw [if_neg hw] at h
+      cases hc : parseChild rat y with
+      | error e => rw [hc] at h; cases h
+      | ok c =>
+        rw [hc] at h
+        simp only at h
+        cases ha : addChild acc k.text c with
+        | error e => rw [ha] at h; cases h
+        | ok acc' =>
+          rw [ha] at h
+          simp only at h
+          have hacc : acc' = acc ++ [(k.text, c)] ∧ k.text ∉ acc.map (·.1) := by
+            unfold addChild at ha
+            split at ha
+            · cases ha
+            · rename_i hany
+              cases ha
+              refine ⟨rfl, ?_⟩
+              intro hmem
+              apply hany
+              obtain ⟨q, hq, hqk⟩ := List.mem_map.mp hmem
+              rw [List.any_eq_true]
+              exact ⟨q, hq, by simp [hqk]⟩
+          obtain ⟨new, h1, h2, h3, h4⟩ := ih acc' h
+          have hwf : k.within commonKeys = false := by
+            cases hb : k.within commonKeys with
+            | true => exact absurd hb hw
+            | false => rfl
+          refine ⟨(k.text, c) :: new, ?_, ?_, ?_, ?_⟩
+          · rw [h1, hacc.1]; simp
+          · rw [List.filter_cons]
+            simp [hwf, h2]
+          · intro k' c' hm
+            rcases List.mem_cons.mp hm with heq | hm'
+            · simp only [Prod.mk.injEq] at heq
+              obtain ⟨rfl, rfl⟩ := heq
+              exact ⟨(k, y), List.mem_cons_self .., hwf, rfl, hc⟩
+            · obtain ⟨p, hp, hq⟩ := h3 k' c' hm'
+              exact ⟨p, List.mem_cons_of_mem _ hp, hq⟩
+          · intro hn
+            apply h4
+            rw [hacc.1, List.map_append, List.nodup_append]
+            refine ⟨hn, by simp, ?_⟩
+            intro a ha b hb
+            simp only [List.map_cons, List.map_nil, List.mem_singleton] at hb
+            subst hb
+            intro hab
+            subst hab
+            exact hacc.2 ha
 
 /-! ## Sequences of updates -/
 
@@ -887,5 +1170,75 @@ theorem mergeChildren_ok (cs other : List (String × PNode V))
       · exact hdisj k' (by simp only [List.map_cons, List.mem_cons]; exact Or.inr hk') hm
       · subst hm; exact hnd.1 hk'
 
+
+theorem bracketList_length (rat : String → Option Rat) (xs : List Y) (bs : List Bracket)
+    (h : bracketList rat xs = .ok bs) : bs.length = xs.length := by
+  induction xs generalizing bs with
+  | nil => simp only [bracketList] at h; cases h; rfl
+  | cons x r ih =>
+    simp only [bracketList] at h
+    cases hb : bracketOf rat x with
+    | error e => rw [hb] at h; cases h
+    | ok b =>
+      rw [hb] at h
+      simp only at h
+      cases hr : bracketList rat r with
+      | error e => rw [hr] at h; cases h
+      | ok bs' =>
+        rw [hr] at h
+        cases h
+        simp only [List.length_cons, ih bs' hr]
+
+/-! ## Absent members and descendants -/
+
+theorem absentAt_keys (name : String) (cs : List (String × PNode V)) (d : Int) :
+    (absentAt name cs d).map (·.1) = (cs.filter (fun p => !p.2.definedAt d)).map (·.1) ∧
+    ∀ k n, (k, n) ∈ absentAt name cs d → n = composeItem name k := by
+  induction cs with
+  | nil => exact ⟨rfl, fun k n h => (by cases h)⟩
+  | cons p r ih =>
+    obtain ⟨k, c⟩ := p
+    simp only [absentAt, List.filter_cons]
+    by_cases hd : c.definedAt d = true
+    · simp only [hd, if_true, Bool.not_true, Bool.false_eq_true, if_false]
+      exact ih
+    · have hf : c.definedAt d = false := by
+        cases hb : c.definedAt d with
+        | true => exact absurd hb hd
+        | false => rfl
+      simp only [hf, Bool.false_eq_true, if_false, Bool.not_false, if_true, List.map_cons, ih.1, true_and]
+      intro k' n hm
+      rcases List.mem_cons.mp hm with heq | hm'
+      · simp only [Prod.mk.injEq] at heq
+        obtain ⟨rfl, rfl⟩ := heq; rfl
+      · exact ih.2 k' n hm'
+
+theorem length_childrenAt_absentAt (name : String) (cs : List (String × PNode V)) (d : Int) :
+    (childrenAt cs d).length + (absentAt name cs d).length = cs.length := by
+  induction cs with
+  | nil => rfl
+  | cons p r ih =>
+    obtain ⟨k, c⟩ := p
+    have hd := atInstant_isSome c d
+    simp only [childrenAt, absentAt]
+    cases hc : c.atInstant d with
+    | none =>
+      rw [hc] at hd
+      simp only [Option.isSome_none] at hd
+      simp only [← hd, Bool.false_eq_true, if_false, List.length_cons]
+      omega
+    | some s =>
+      rw [hc] at hd
+      simp only [Option.isSome_some] at hd
+      simp only [← hd, if_true, List.length_cons]
+      omega
+
+theorem descAll_append (name : String) (cs₁ cs₂ : List (String × PNode V)) :
+    descAll name (cs₁ ++ cs₂) = descAll name cs₁ ++ descAll name cs₂ := by
+  induction cs₁ with
+  | nil => rfl
+  | cons p r ih =>
+    obtain ⟨k, c⟩ := p
+    simp only [List.cons_append, descAll, ih, List.append_assoc, List.cons_append]
 
 end OFCore.Param
